@@ -533,3 +533,8 @@ def _bounded(seed):
         return json.loads(r.stdout.strip().splitlines()[-1])
     except Exception:
         return {"error": (r.stdout + r.stderr)[-500:]}
+
+
+# the out-of-plane rotation of a wedged substituent takes its axis from mean_plane: that contract is part of this claim
+from contracts import C16_hydrogens as C16
+P.include(C16.P, ["mean_plane: the singular vector"], why="normal of the drawing plane at a stereo centre")
